@@ -55,8 +55,8 @@ func init() {
 	{
 		var hs []harness
 		for _, n := range []string{"appendAssign", "appendCombine", "newDeref", "rangeAppendAll", "badRegexp", "regexpPattern", "regexpSimplify", "sortSlice", "filepathJoin", "flagName"} {
-			hs = append(hs, harness{Name: "gsxAPI_" + n, Pkg: "checkers", Quick: map[string]int{"K": 3, "B": 2, "strlen": 8, "paths": 1500, "wall_s": 30},
-				Thorough: map[string]int{"K": 4, "B": 2, "strlen": 8, "paths": 4000, "wall_s": 30}, NoValidate: true, Tolerant: true, ReplayFn: replayAPI(n)})
+			hs = append(hs, harness{Name: "gsxAPI_" + n, Pkg: "checkers", Quick: map[string]int{"K": 3, "B": 2, "strlen": 16, "paths": 1500, "wall_s": 30},
+				Thorough: map[string]int{"K": 4, "B": 2, "strlen": 16, "paths": 4000, "wall_s": 30}, NoValidate: true, Tolerant: true, ReplayFn: replayAPI(n)})
 		}
 		hs = append(hs, harness{Name: "gsxC20RangeAppendAll", Pkg: "checkers", Solver: "z3", Quick: map[string]int{"paths": 400, "wall_s": 60}, NoValidate: true, ReplayFn: replayRangeAppendAll, MustReach: []string{"visited", "reported"}})
 		hs = append(hs, harness{Name: "gsxC20ExitAfterDefer", Pkg: "checkers", Solver: "z3", Quick: map[string]int{"paths": 400, "wall_s": 60}, NoValidate: true, ReplayFn: replayExitAfterDefer, MustReach: []string{"visited", "reported"}})
@@ -221,7 +221,16 @@ func visitHarnesses(quick, thorough map[string]int) []harness {
 	}
 	var hs []harness
 	for _, n := range names {
-		hs = append(hs, harness{Name: "gsxVisit_" + n, Pkg: "checkers", Quick: quick, Thorough: thorough, NoValidate: true, Tolerant: true, ReplayFn: replayVisit(n)})
+		q, t := quick, thorough
+		if deeperVisit[n] {
+			// these checkers only report on structures one level deeper than the default bound
+			q = withBound(withBound(quick, "K", 4), "paths", 6000)
+		}
+		if n == "filepathJoin" {
+			// the checker compares an import path of 13 bytes ("path/filepath"): strings must be able to be that long
+			q, t = withBound(quick, "strlen", 16), withBound(thorough, "strlen", 16)
+		}
+		hs = append(hs, harness{Name: "gsxVisit_" + n, Pkg: "checkers", Quick: q, Thorough: t, NoValidate: true, Tolerant: true, ReplayFn: replayVisit(n)})
 		wq := map[string]int{"K": 2, "B": 2, "strlen": 8, "paths": 400, "wall_s": 15}
 		wt := map[string]int{"K": 3, "B": 2, "strlen": 8, "paths": 2000, "wall_s": 18}
 		hs = append(hs, harness{Name: "gsxWalk_" + n, Pkg: "checkers", Quick: wq, Thorough: wt, NoValidate: true, Tolerant: true, ReplayFn: replayVisit(n)})
@@ -270,3 +279,16 @@ func relHarnesses(prefixes []string, mode string, quick, thorough []map[string]i
 	}
 	return hs
 }
+
+func withBound(m map[string]int, k string, v int) map[string]int {
+	out := map[string]int{}
+	for a, b := range m {
+		out[a] = b
+	}
+	out[k] = v
+	return out
+}
+
+// deeperVisit: checkers whose diagnostics need depth 4 (found by probing which
+// visit harnesses never reached a diagnostic at depth 3); their explorations are cheap.
+var deeperVisit = map[string]bool{"emptyFallthrough": true, "typeAssertChain": true, "badCond": true, "unlambda": true}
